@@ -39,12 +39,13 @@ def minmax_filtered(ex, st, sp, is_max, default, node):
     if isinstance(ek, SV):
         ex.ctx.oblige(st, "noraise:TypeError", "min/max element", z3.Implies(z3.And(k >= 0, k < n, zbool(keep(k))), vals.v_is_numlike(ek.t)), node)
     ne = make_nonempty(ex, st, n, keep)
-    m = z3.Real(fresh_name("ext"))
-    isf = z3.Bool(fresh_name("ext.isf"))
+    # the extremum is one of the kept elements (with its own type), and bounds all of them
     w = z3.Int(fresh_name("w"))
     st.inst_terms.append(("term", w))
-    st.assume(z3.Implies(ne, z3.And(w >= 0, w < n, zbool(keep(w)), m == to_real_term(elem(w)))))
+    ew = elem(w)
+    m = to_real_term(ew)
+    st.assume(z3.Implies(ne, z3.And(w >= 0, w < n, zbool(keep(w)))))
     rel = (lambda a, b: a >= b) if is_max else (lambda a, b: a <= b)
     st.qassumes.append(QAssume(lambda j: z3.Implies(z3.And(ne, j >= 0, j < n, zbool(keep(j))), rel(m, to_real_term(elem(j)))), "filtered-extremum-bounds-all"))
     dv = vals.to_V(default, st.heap)
-    yield st, vals.from_V_term(z3.If(ne, V.vnum(m, isf), dv))
+    yield st, vals.from_V_term(z3.If(ne, vals.to_V(ew, st.heap), dv))
